@@ -3,7 +3,8 @@
 
 Exhaustive enumeration of failing links of the real wild process: every natural error, a panic at
 every phase point, (thorough) every single syscall deviation on the output path, x prior state of
-the output path {absent, older valid output, unrelated file, read-only file} x write mode
+the output path {absent, older valid output, unrelated file, read-only file, an executable that
+is being executed} x write mode
 {default, --update-in-place, --no-update-in-place} x threads {1,4} x fork / no-fork.
 
 Oracle (no linker involved): snapshot (exists, inode, size, mtime_ns, sha256) of the output path
@@ -150,7 +151,8 @@ def main():
             cfgs(["so"], [True], [1], ["default"], ["absent", "older"]) +
             cfgs(["exe"], [False], [1], ["default"], ["older"]))
         panic_first_only = []
-        natural_cfgs = cfgs(["exe", "so"], [True, False], [4, 1], W3, P4)  # full product
+        natural_cfgs = cfgs(["exe", "so"], [True, False], [4, 1], W3, P4) + \
+            cfgs(["exe", "so"], [True, False], [4, 1], W3, ["busy"])         # full product
         unc_cfgs = cfgs(["exe"], [False, True], [4], ["default"], ["older"])
         unc_faults, unc_all_points = UNCATCHABLE, True
         strace_cfgs = cfgs(["exe", "so"], [False], [4], W3, ["absent", "older"]) + \
@@ -180,7 +182,8 @@ def main():
         natural_cfgs = dedup(
             cfgs(["exe"], [True], [4, 1], W3, P4) +
             cfgs(["so"], [True], [4], ["default", "inplace"], P4) +
-            cfgs(["exe"], [False], [4], ["default"], ["absent", "older"]))
+            cfgs(["exe"], [False], [4], ["default"], ["absent", "older"]) +
+            cfgs(["exe"], [True, False], [4], ["default", "inplace"], ["busy"]))
         unc_cfgs = cfgs(["exe"], [False], [4], ["default"], ["older"])
         unc_faults, unc_all_points = ("kill9",), False
         strace_cfgs = []
@@ -190,8 +193,8 @@ def main():
                    "exe/no-fork/t1 x {inplace, noinplace} x older, so/fork/t4/default/older. Natural errors: the 3 that fail after "
                    "the output was created run in 34 configurations (exe/fork: full prior x "
                    "mode x threads; so/fork/t4: 4 priors x {default, inplace}; exe/no-fork/t4/"
-                   "default x {absent, older}); the 7 early ones only in exe+so/fork/t4/default x "
-                   "{absent, older}. Uncatchable: kill9 only, first-occurrence points, "
+                   "default x {absent, older}); the 7 early ones only in exe+so/fork/t4 x {default, inplace} x "
+                   "{absent, older} and exe/t4 x {default, inplace} x busy (an executable that is running). Uncatchable: kill9 only, first-occurrence points, "
                    "exe/no-fork/t4/default/older. No strace deviations.")
     with vlib.scratch("c18") as base:
         fe.materialize(base)
@@ -211,8 +214,9 @@ def main():
                         continue        # these scenarios define the prior state themselves
                     natural.append(dict(cfg, scenario=scen, prior=S["fixed_prior"]))
                 elif chk.thorough or S["late"] or \
-                        (cfg["wmode"] == "default" and cfg["threads"] == 4 and cfg["fork"] and
-                         cfg["prior"] in ("absent", "older")):
+                        (cfg["wmode"] in ("default", "inplace") and cfg["threads"] == 4 and
+                         (cfg["fork"] or cfg["prior"] == "busy") and
+                         cfg["prior"] in ("absent", "older", "busy")):
                     natural.append(dict(cfg, scenario=scen))
         for cfg in panic_cfgs:
             for point in info[fe.cfg_key(cfg)]["points"]:
